@@ -73,6 +73,9 @@ struct Dumper {
   }
   std::string usr(const Decl *D) {
     llvm::SmallString<128> Buf;
+    // a definition whose parameters carry top-level const gets a different USR from its declaration: always name a
+    // function by its canonical (first) declaration, which is also what call expressions resolve to
+    if (auto *FD = dyn_cast_or_null<FunctionDecl>(D)) D = FD->getCanonicalDecl();
     if (index::generateUSRForDecl(D, Buf)) return "";
     return std::string(Buf.str());
   }
